@@ -292,14 +292,15 @@ pub fn dispatch(m: &mut Machine, name: &str, args: &[&str]) -> Option<R> {
             m.put(s, Obj::Cipher(c));
             Ok("-".into())
         })(),
-        // process <slot> <data> [output length]  (separate input / output buffers)
+        // process <slot> <data> [output length|-] [output alignment]  (separate input / output buffers)
         "process" => (|| {
             need(args, 2)?;
             let s = arg_slot(args[0])?;
             let d = arg_bytes(args[1])?;
-            let outlen = if args.len() > 2 { arg_usize(args[2])? } else { d.len() };
+            let outlen = if args.len() > 2 && args[2] != "-" { arg_usize(args[2])? } else { d.len() };
+            let outalign = if args.len() > 3 { arg_usize(args[3])? } else { 0 };
             with_cipher(m, s, |c| {
-                let mut out = Buf::new(&vec![0xA5u8; outlen], 0);
+                let mut out = Buf::new(&vec![0xA5u8; outlen], outalign);
                 c.process(&d, out.as_mut_slice());
                 Ok(obs_bytes(&out))
             })
